@@ -38,6 +38,12 @@ impl<R: VRead> LowMarkBufReader<R> {
         &&& self.low_mark + 4096 <= self.buf@.len()
         &&& (self.empty_last_read ==> self.inner.rest().len() == 0)
         &&& self.abs_pos + self.cap + self.inner.rest().len() <= usize::MAX
+        // the source has delivered exactly the bytes before abs_pos + cap
+        &&& self.abs_pos + self.cap <= self.inner.total().len()
+        &&& self.inner.rest() == self.inner.total().skip(self.abs_pos + self.cap)
+        // window validity: everything between the start of the buffer and cap (all of it can be handed out: the part from pos on
+        // by fill_buf/read, the part before pos after a backward seek) holds the source's bytes at abs_pos ..
+        &&& self.buf@.subrange(0, self.cap as int) == self.inner.total().subrange(self.abs_pos as int, self.abs_pos + self.cap)
     }
     // absolute stream position of the next unread byte
     pub open spec fn stream_pos(&self) -> int { self.abs_pos + self.pos }
@@ -49,11 +55,17 @@ impl<R: VRead> LowMarkBufReader<R> {
 //@|        low_mark + 4096 <= capacity, // the two assert!s of new(): an inadmissible capacity panics by design
 //@|        low_mark > 0,
 //@|        inner.rest().len() <= usize::MAX,
+//@|        inner.rest() == inner.total(), // a fresh source
 //@|    ensures
 //@|        r.wf(), // O:new.wf
 //@|        r.unread() == inner.rest(), // O:new.unread
 //@|        r.stream_pos() == 0,
 //@|        r.low_mark == low_mark && r.buf@.len() == capacity,
+//@   hint before `LowMarkBufReader {`
+//@|    proof {
+//@|        assert(inner.total().skip(0) =~= inner.total());
+//@|        assert(buf@.subrange(0, 0) =~= inner.total().subrange(0, 0));
+//@|    }
 //@ end
 
 //@ extract src/utils/lowmarkbufreader.rs LowMarkBufReader::buffer
@@ -79,17 +91,30 @@ impl<R: VRead> LowMarkBufReader<R> {
 //@|        r is Ok ==> (r->Ok_0@.len() >= old(self).low_mark || r->Ok_0@.len() == old(self).unread().len()), // O:fill.lowmark
 //@|        r is Ok ==> (r->Ok_0@.len() == 0 ==> old(self).unread().len() == 0), // O:fill.eof
 //@|        final(self).inner.never_fails() == old(self).inner.never_fails(),
+//@|        final(self).inner.total() == old(self).inner.total(),
 //@|        old(self).inner.never_fails() ==> r is Ok, // O:fill.no_spurious_error
 //@   sub R14 `let read = self.inner.read(&mut self.buf[self.cap..` => `let vx_s: &mut [u8] = &mut *self.buf; let read = self.inner.read(&mut vx_s[self.cap..`
 //@   hint before `let in_buf = self.cap - self.pos;`
 //@|    let ghost bf0 = self.buffered();
+//@|    let ghost t = self.inner.total();
+//@|    let ghost (bufL, absL, capL) = (self.buf@, self.abs_pos as int, self.cap as int);
 //@   hint before `let vx_s: &mut [u8]`
 //@|    assert(self.buffered() =~= bf0); // O:fill.compact.frame
+//@|    // after moving the data to the front the buffer still starts with the source's bytes at abs_pos
+//@|    assert forall|i: int| 0 <= i < self.cap implies self.buf@[i] == t[self.abs_pos + i] by { // O:fill.compact.window
+//@|        let j = i + (self.abs_pos - absL);
+//@|        assert(bufL.subrange(0, capL)[j] == t.subrange(absL, absL + capL)[j]);
+//@|    }
+//@|    assert(self.buf@.subrange(0, self.cap as int) =~= t.subrange(self.abs_pos as int, self.abs_pos + self.cap));
 //@|    let ghost b1 = self.buf@;
 //@|    let ghost r1 = self.inner.rest();
 //@   hint before `if read == 0 {`
 //@|    assert(self.buf@.subrange(self.pos as int, self.cap as int + read as int) =~= b1.subrange(self.pos as int, self.cap as int) + r1.subrange(0, read as int)); // O:fill.refill.append
 //@|    assert(r1 =~= r1.subrange(0, read as int) + r1.skip(read as int));
+//@|    assert(self.buf@.subrange(0, self.cap as int + read as int) =~= b1.subrange(0, self.cap as int) + r1.subrange(0, read as int));
+//@|    assert(self.buf@.subrange(0, self.cap as int + read as int) =~= t.subrange(self.abs_pos as int, self.abs_pos + self.cap + read)); // O:fill.refill.window
+//@|    assert(self.buf@.subrange(0, self.cap as int) =~= t.subrange(self.abs_pos as int, self.abs_pos + self.cap));
+//@|    assert(r1.skip(read as int) =~= t.skip(self.abs_pos + self.cap + read));
 //@   loop 1
 //@|    invariant_except_break
 //@|        !self.empty_last_read,
@@ -99,6 +124,7 @@ impl<R: VRead> LowMarkBufReader<R> {
 //@|        self.stream_pos() == old(self).stream_pos(), // O:fill.inv.pos
 //@|        self.low_mark == old(self).low_mark && self.buf@.len() == old(self).buf@.len(),
 //@|        self.inner.never_fails() == old(self).inner.never_fails(),
+//@|        self.inner.total() == old(self).inner.total(),
 //@|    ensures
 //@|        self.buffered().len() >= self.low_mark || self.inner.rest().len() == 0, // O:fill.inv.lowmark
 //@|    decreases self.inner.rest().len(),
@@ -132,6 +158,7 @@ impl<R: VRead> LowMarkBufReader<R> {
 //@|        r is Ok ==> (r->Ok_0 == 0 ==> old(buf)@.len() == 0 || old(self).unread().len() == 0), // O:read.eof
 //@|        r is Err ==> final(self).unread() == old(self).unread(), // O:read.err_frame
 //@|        final(self).inner.never_fails() == old(self).inner.never_fails(),
+//@|        final(self).inner.total() == old(self).inner.total(),
 //@|        old(self).inner.never_fails() ==> r is Ok,
 //@ end
 
@@ -145,7 +172,17 @@ impl<R: VRead> LowMarkBufReader<R> {
 //@|        old(self).cap != 0 ==> final(self).buf@ == old(self).buf@ && final(self).cap == old(self).cap && final(self).abs_pos == old(self).abs_pos && final(self).inner.rest() == old(self).inner.rest(), // O:seek.frame
 //@|        r is Err && old(self).cap != 0 ==> final(self).pos == old(self).pos, // O:seek.err_frame
 //@|        pos matches SeekFrom::Start(n) ==> (r is Ok ==> r->Ok_0 == n && final(self).abs_pos <= n <= final(self).abs_pos + final(self).cap), // O:seek.start
+//@|        r is Ok ==> final(self).unread() == final(self).inner.total().skip(r->Ok_0 as int), // O:seek.bytes (after a successful seek the reader hands out the source's bytes from there)
+//@|        final(self).inner.total() == old(self).inner.total(),
 //@|    decreases (if pos is Current { 1int } else { 0int }),
+//@   hint before `^Ok(n)`
+//@|    proof {
+//@|        let t = self.inner.total();
+//@|        assert forall|k: int| 0 <= k < self.cap implies #[trigger] self.buf@[k] == t[self.abs_pos + k] by {
+//@|            assert(self.buf@.subrange(0, self.cap as int)[k] == t.subrange(self.abs_pos as int, self.abs_pos + self.cap)[k]);
+//@|        }
+//@|        assert(self.unread() =~= t.skip(n as int));
+//@|    }
 //@ end
 }
 // ---- end of units/lowmark/part.rs ----
